@@ -417,4 +417,186 @@ Proof.
   - exact H0.
 Qed.
 
+
+(* ================= C20: the sender's progress is the highest offset transmitted ================= *)
+Definition fd_end (o : out) : N :=
+  match o with
+  | OPdu p => match o_payload p with PFileData off d => off + N.of_nat (length d) | _ => 0 end
+  | OInd _ => 0
+  end.
+Fixpoint hi (l : list out) : N := match l with [] => 0 | o :: t => N.max (fd_end o) (hi t) end.
+
+Definition HS (base : N) (s : sstate) : Prop := s_sent s = N.max base (hi (s_out s)).
+
+Lemma HS_ext base (s s' : sstate) : HS base s -> s_sent s' = s_sent s -> s_out s' = s_out s -> HS base s'.
+Proof. unfold HS. intros H E1 E2. rewrite E1, E2. exact H. Qed.
+Lemma HS_out base o (s s' : sstate) : HS base s -> s_sent s' = s_sent s -> s_out s' = o :: s_out s ->
+  fd_end o = 0 -> HS base s'.
+Proof. unfold HS. intros H E1 E2 E3. rewrite E1, E2. cbn [hi]. rewrite E3, H. lia. Qed.
+
+Ltac hs_leaf base :=
+  lazymatch goal with
+  | |- HS base ?t =>
+      let b := strip_s t in
+      first [ eapply (HS_ext base b); [ | reflexivity | reflexivity ]
+            | eapply (HS_out base _ b); [ | reflexivity | reflexivity | reflexivity ] ]
+  end.
+
+Lemma HS_shutdown base now s : HS base s -> HS base (s_shutdown now s).
+Proof. intros H. unfold s_shutdown. hs_leaf base. exact H. Qed.
+Lemma HS_abandon base now s : HS base s -> HS base (s_abandon now s).
+Proof. intros H. unfold s_abandon. apply HS_shutdown. hs_leaf base. exact H. Qed.
+Lemma HS_suspend base now s : HS base s -> HS base (s_suspend now s).
+Proof. intros H. unfold s_suspend. hs_leaf base. exact H. Qed.
+Lemma HS_resume base now s : HS base s -> HS base (s_resume now s).
+Proof. intros H. unfold s_resume. destruct (s_phase s); hs_leaf base; exact H. Qed.
+Lemma HS_set_eof_flag base b s : HS base s -> HS base (set_eof_flag b s).
+Proof. intros H. unfold set_eof_flag. destruct (s_eof s) as [[e f]|]; [hs_leaf base|]; exact H. Qed.
+Lemma HS_prepare_eof base fl s : HS base s -> HS base (prepare_eof fl s).
+Proof.
+  intros H. unfold Send.prepare_eof, Send.get_checksum.
+  destruct (s_cksum s); cbn [fst snd]; [hs_leaf base; exact H|].
+  destruct (s_is_file_transfer s); cbn [fst snd]; [|hs_leaf base; exact H].
+  destruct (md_ck (s_meta s)); hs_leaf base; exact H.
+Qed.
+Lemma HS_cancel_ base now c s : HS base s -> HS base (s_cancel_ now c s).
+Proof. intros H. unfold Send.s_cancel_. apply HS_prepare_eof. hs_leaf base. exact H. Qed.
+Lemma HS_handle_fault base now c s : HS base s -> HS base (s_handle_fault now c s).
+Proof.
+  intros H. unfold Send.s_handle_fault.
+  assert (H1 : HS base (semit_ind (IFault c (s_sent (set_s_cond c s))) (set_s_cond c s))) by (hs_leaf base; exact H).
+  destruct (handler _ c); [apply HS_cancel_ | apply HS_suspend | | apply HS_abandon]; exact H1.
+Qed.
+Lemma HS_handle_timeout base now s : HS base s -> HS base (s_handle_timeout now s).
+Proof.
+  intros H. unfold Send.s_handle_timeout, c_limit_reached, c_timeout_occurred.
+  destruct (s_phase s) eqn:Ep; try exact H; cbn [fst snd].
+  - set (s1 := supd_inact (fun _ => c_update now (t_inact (s_timer s))) s).
+    assert (H1 : HS base s1) by (unfold s1; hs_leaf base; exact H).
+    assert (H2 : HS base (if c_count (c_update now (t_inact (s_timer s))) =? c_max (c_update now (t_inact (s_timer s)))
+                     then s_handle_fault now InactivityDetected s1 else s1)).
+    { destruct (_ =? _); [apply HS_handle_fault|]; exact H1. }
+    clearbody s1. remember (if _ =? _ then _ else s1) as s2 eqn:E2. clear E2 H1.
+    set (s3 := supd_ack (fun _ => c_update now (t_ack (s_timer s2))) s2).
+    assert (H3 : HS base s3) by (unfold s3; hs_leaf base; exact H2).
+    destruct (c_occurred _); [|exact H3].
+    destruct (_ =? _); [apply HS_handle_fault | apply HS_set_eof_flag]; exact H3.
+  - set (s1 := supd_inact (fun _ => c_update now (t_inact (s_timer s))) s).
+    assert (H1 : HS base s1) by (unfold s1; hs_leaf base; exact H).
+    assert (H2 : HS base (if c_count (c_update now (t_inact (s_timer s))) =? c_max (c_update now (t_inact (s_timer s)))
+                     then s_abandon now s1 else s1)).
+    { destruct (_ =? _); [apply HS_abandon|]; exact H1. }
+    clearbody s1. remember (if _ =? _ then _ else s1) as s2 eqn:E2. clear E2 H1.
+    set (s3 := supd_ack (fun _ => c_update now (t_ack (s_timer s2))) s2).
+    assert (H3 : HS base s3) by (unfold s3; hs_leaf base; exact H2).
+    destruct (c_occurred _); [|exact H3].
+    destruct (_ =? _); [apply HS_abandon | apply HS_set_eof_flag]; exact H3.
+Qed.
+Lemma HS_process_pdu base now p s : HS base s -> HS base (fst (s_process_pdu now p s)).
+Proof.
+  intros H. unfold Send.s_process_pdu.
+  set (s0 := if sphase_eqb (s_phase s) SendEof && negb (ssuspended s) then supd_inact (c_restart now) s else s).
+  assert (H0 : HS base s0) by (unfold s0; destruct (_ && _); [hs_leaf base|]; exact H). clearbody s0. clear H.
+  destruct (cfg_mode (s_cfg s0)); destruct p; cbn [fst]; try exact H0.
+  - hs_leaf base. exact H0.
+  - destruct (ack_dir a); cbn [fst]; exact H0.
+  - destruct (md_closure (s_meta s0)); cbn [fst]; [|exact H0]. apply HS_shutdown. hs_leaf base. exact H0.
+Qed.
+Lemma HS_file_segment base off len s : HS base s -> HS base (send_file_segment off len s).
+Proof.
+  unfold HS, Send.send_file_segment. cbn. intros H. rewrite H. lia.
+Qed.
+Lemma HS_send_metadata base s : HS base s -> HS base (send_metadata s).
+Proof. intros H. unfold Send.send_metadata. hs_leaf base. exact H. Qed.
+Lemma HS_send_missing_data base now s : HS base s -> HS base (fst (send_missing_data now s)).
+Proof.
+  intros H. unfold Send.send_missing_data. destruct (s_naks s) as [|[a b] t]; [exact H|].
+  set (s1 := supd_inact (c_restart now) (set_s_naks t s)).
+  assert (H1 : HS base s1) by (unfold s1; hs_leaf base; exact H). clearbody s1.
+  destruct (65535 <? b - a); cbn [fst]; [exact H1|].
+  destruct ((a =? 0) && (b - a =? 0)); cbn [fst]; [apply HS_send_metadata; exact H1|].
+  eapply (HS_ext base (send_file_segment a (b - a) s1)); [apply HS_file_segment; exact H1|reflexivity|reflexivity].
+Qed.
+Lemma HS_send_eof base now s : HS base s -> HS base (send_eof now s).
+Proof.
+  intros H. unfold Send.send_eof. destruct (s_eof s) as [[e [|]]|]; try exact H.
+  apply HS_set_eof_flag. hs_leaf base. exact H.
+Qed.
+Lemma HS_send_pdu base now s : HS base s -> HS base (fst (s_send_pdu now s)).
+Proof.
+  intros H. unfold Send.s_send_pdu.
+  destruct (is_some (s_prompt s)); cbn [fst].
+  { unfold Send.send_prompt. destruct (s_prompt s); [hs_leaf base|]; exact H. }
+  destruct (s_phase s).
+  - pose proof (HS_send_metadata base s H) as H1.
+    destruct (_ && _); cbn [fst]; [hs_leaf base; exact H1|].
+    eapply (HS_ext base (prepare_eof None (send_metadata s))); [apply HS_prepare_eof; exact H1|reflexivity|reflexivity].
+  - assert (H1 : HS base (fst (if negb (is_nil (s_naks s)) then send_missing_data now s
+                               else (send_file_segment (s_pos s) (cfg_seg (s_cfg s)) s, ROk)))).
+    { destruct (negb _); [apply HS_send_missing_data|apply HS_file_segment]; exact H. }
+    destruct (if negb (is_nil (s_naks s)) then _ else _) as [s1 r]. cbn [fst] in H1.
+    destruct r; cbn [fst]; try exact H1.
+    destruct (_ =? _); cbn [fst]; [|exact H1].
+    eapply (HS_ext base (prepare_eof None s1)); [apply HS_prepare_eof; exact H1|reflexivity|reflexivity].
+  - destruct (negb _); [apply HS_send_missing_data; exact H|].
+    pose proof (HS_send_eof base now s H) as H1. set (s1 := send_eof now s) in *. clearbody s1.
+    assert (H2 : HS base (if s_eof_ind s1 then set_s_eof_ind false (semit_ind IEoFSent s1) else s1)).
+    { destruct (s_eof_ind s1); [hs_leaf base|]; exact H1. }
+    remember (if s_eof_ind s1 then _ else s1) as s2 eqn:E2. clear E2 H1.
+    destruct (cfg_mode (s_cfg s2)); cbn [fst]; [exact H2|].
+    destruct (md_closure (s_meta s2)); cbn [fst]; [exact H2|].
+    apply HS_shutdown. hs_leaf base. exact H2.
+  - cbn [fst]. apply HS_send_eof; exact H.
+  - cbn [fst]. unfold Send.send_ack. destruct (s_ack s); [apply HS_shutdown; hs_leaf base|]; exact H.
+Qed.
+
+(* one step: the new progress is the old one or the highest end offset among the file data
+   PDUs the step emitted, whichever is larger *)
+Theorem sent_step now o s :
+  let s' := fst (sstep now o s) in s_sent s' = N.max (s_sent s) (hi (s_out s')).
+Proof.
+  cbn zeta. unfold Send.sstep.
+  assert (H0 : HS (s_sent s) (set_s_out [] s)) by (unfold HS; cbn; lia).
+  destruct o; cbn [fst].
+  - apply HS_process_pdu; exact H0.
+  - destruct (s_has_pdu_to_send _); [apply HS_send_pdu|]; exact H0.
+  - destruct (s_until_timeout now _) as [[|?]|]; [apply HS_handle_timeout| |]; exact H0.
+  - apply HS_cancel_; exact H0.
+  - apply HS_suspend; exact H0.
+  - apply HS_resume; exact H0.
+  - unfold s_send_report. eapply (HS_out _ _ (set_s_out [] s)); [exact H0|reflexivity|reflexivity|reflexivity].
+  - apply HS_shutdown; exact H0.
+  - exact H0.
+Qed.
+
+(* ================= C19 (sender): a suspended transaction is silent ================= *)
+Definition squiet (o : out) : Prop :=
+  match o with
+  | OPdu _ => False
+  | OInd (IFault _ _) => False
+  | OInd _ => True
+  end.
+
+Theorem s_suspended_silent now o s : ssuspended s = true ->
+  s_has_pdu_to_send s = false /\ s_until_timeout now s = None /\
+  Forall squiet (s_out (fst (sstep now o s))).
+Proof.
+  intros Hs. unfold s_has_pdu_to_send, s_until_timeout. rewrite Hs. splits; try reflexivity.
+  unfold Send.sstep.
+  assert (Hs0 : ssuspended (set_s_out [] s) = true) by exact Hs.
+  destruct o; cbn [fst].
+  - unfold Send.s_process_pdu. rewrite Hs0. rewrite andb_false_r.
+    destruct (cfg_mode _); destruct p; cbn [fst]; try constructor;
+      repeat (destr_inner; cbn [fst]); cbn; repeat constructor.
+  - unfold s_has_pdu_to_send. rewrite Hs0. constructor.
+  - unfold s_until_timeout. rewrite Hs0. constructor.
+  - unfold Send.s_cancel, Send.s_cancel_, Send.prepare_eof, Send.get_checksum.
+    repeat (destr_inner; cbn [fst snd]); cbn; constructor.
+  - cbn. repeat constructor.
+  - unfold s_resume. destruct (s_phase _); cbn; repeat constructor.
+  - cbn. repeat constructor.
+  - cbn. constructor.
+  - cbn. constructor.
+Qed.
+
 End SendP.
